@@ -215,6 +215,40 @@ def check(ctx):
             ok, why, chain = discharge_reduction(repo, s)
             ctx.ob("GRD-empty", s.fn, s.text, s.node, ok, why, chain=chain, clause="zero-row or zero-column shape never raises")
     ctx.count("partial-operation sites in the rendering call graph", n_sites, 3)
+    # "".splitlines() is the EMPTY list: the first line of a cell is taken only where something on the path speaks about the
+    # cell or its lines (a width or line-count test); an unconditional lines[0] fails for a blank cell
+    from ..dataflow import defs_reaching as _dr20
+    n_first = 0
+    for fn_ in (repo.fn(f"{VEC}.to_strings"),):
+        for sub in [x for x in body_nodes(fn_.node) if isinstance(x, ast.Subscript) and isinstance(x.ctx, ast.Load)
+                    and isinstance(x.slice, ast.Constant) and x.slice.value in (0, -1) and isinstance(x.value, ast.Name)]:
+            ds = _dr20(fn_, sub.value.id, sub)
+            srcs = [d.value for d in ds if d.value is not None]
+            if not srcs or not all(isinstance(v, ast.Call) and isinstance(v.func, ast.Attribute) and v.func.attr in ("splitlines", "split")
+                                   for v in srcs):
+                continue
+            n_first += 1
+            cell = norm(srcs[0].func.value)
+            # some test about the cell or its lines is evaluated on EVERY path to this access (a dominating test node; flag
+            # temporaries such as is_too_wide = ulen(cell) > width are looked through)
+            from ..cfg import cfg_of as _cfg20
+            from ..facts import cfg_node_of as _cn20
+            from ..forms import expand as _exp20
+            cfg_ = _cfg20(fn_)
+            here = _cn20(fn_, sub)
+            about = []
+            for tn in cfg_.nodes:
+                if tn.kind != "test" or tn.ast is None or tn is here or here is None or not cfg_.dominates(tn, here):
+                    continue
+                raw = norm(tn.ast)
+                tt = norm(_exp20(fn_, tn.ast, tn.ast, keep=tuple(n.id for n in ast.walk(srcs[0]) if isinstance(n, ast.Name)) + (sub.value.id,)))
+                if sub.value.id in raw or cell in raw or sub.value.id in tt or cell in tt:
+                    about.append(raw)
+            ctx.ob("GRD-empty", fn_, f"{norm(sub)} of {norm(srcs[0])}", sub, bool(about),
+                   f"taken under {about[:1]}" if about else
+                   f"{norm(sub)} is evaluated for every cell, but {norm(srcs[0])} is the empty list for a blank cell (the missing value of a "
+                   f"string column, an empty object element): rendering raises IndexError", clause="rendering never raises, for every dtype and missing value")
+    ctx.note(f"first-line accesses on split cells: {n_first}")
 
     # -------------------------------------------------------------- GRD-null
     geo = repo.cls(GEO)
